@@ -68,6 +68,8 @@ func NewCommit(o *Object) (*Commit, error) {
 
 	buf := bytes.NewReader(o.Data)
 	scanner := bufio.NewScanner(buf)
+	// a line of the message may be longer than the scanner's default limit of 64 KiB
+	scanner.Buffer(nil, len(o.Data)+1)
 	for scanner.Scan() {
 		text := scanner.Text()
 		splitText := strings.SplitN(text, " ", 2)
